@@ -10,6 +10,8 @@ for cj in sorted(glob.glob("/var/tmp/confirm/C*-mut*.json")):
         print("skip (not confirmed):", name)
         continue
     dst = os.path.join(V, "seeded", name)
+    if os.path.exists(os.path.join(dst, "meta.json")):
+        continue                     # installed earlier (its patch may have been rebased since): left alone
     os.makedirs(dst, exist_ok=True)
     for f in ("patch.diff", "demo.py", "notes.md"):
         src = os.path.join(rec["dir"], f)
